@@ -365,7 +365,7 @@ class spawn(SpawnBase):
         while True:
             if not self.getecho():
                 return True
-            if timeout < 0 and timeout is not None:
+            if timeout is not None and timeout < 0:
                 return False
             if timeout is not None:
                 timeout = end_time - time.time()
